@@ -187,4 +187,178 @@ def rule_b(ctx):
     return r
 
 
-RULES = [rule_a, rule_b]
+
+# ---------------------------------------------------------------------------------------------
+# E3: dart-sass lib/src/ast/css/media_query.dart `merge`, outcome category only, over the atoms the Rust code tests.
+def _reference(q1, q2, sub_neg_pos, len_gt, sub_few_more):
+    """q = (conjunction, modifier, type) with modifier in (None,'not','only'), type in (None,'all','screen','print')."""
+    c1, m1, t1 = q1
+    c2, m2, t2 = q2
+    if not c1 or not c2:
+        return "Unrepresentable"
+    if t1 is None and t2 is None:
+        return "Success"
+    all1 = t1 is None or t1 == "all"
+    all2 = t2 is None or t2 == "all"
+    if (m1 == "not") != (m2 == "not"):
+        if t1 == t2:
+            return "Empty" if sub_neg_pos else "Unrepresentable"
+        if all1 or all2:
+            return "Unrepresentable"
+        return "Success"
+    if m1 == "not":
+        if t1 != t2:
+            return "Unrepresentable"
+        return "Success" if sub_few_more else "Unrepresentable"
+    if all1 or all2:
+        return "Success"
+    if t1 != t2:
+        return "Empty"
+    return "Success"
+
+
+def _qfield(body, ap, depth=0):
+    """('self'|'other', field) when the value derives from argN.<field> through Option::map/as_ref/as_deref chains."""
+    for n, who in ((1, "self"), (2, "other")):
+        for f in ("modifier", "media_type", "conditions", "conjunction"):
+            if derives_from_field(body, ap, n, f):
+                return who, f
+    return None
+
+
+def rule_c(ctx):
+    from .. import psa
+    r = RuleResult("C17-c", "the decision structure of MediaQuery::merge yields the same outcome (Empty / Unrepresentable / Success) as the dart-sass reference "
+                   "for every combination of conjunction, modifier (none/not/only), type (none/all/two concrete types) and condition-subset relations")
+    prog = ctx.prog()
+    b = prog.one(MERGE)
+    subset_sites = sorted(c.bb for c in b.calls() if an.tail2(c.callee) == "Iterator::all")
+
+    def classify(kind, obj, body, sw):
+        if kind == "place":
+            if obj.root[0] == "arg" and obj.proj == ("conjunction",):
+                return psa.Pred(("CONJ", "self" if obj.root[1] == 1 else "other"), []), False
+            return None
+        if kind == "call":
+            t2 = an.tail2(obj.callee)
+            nm = obj.name() or ""
+            if nm.endswith("MediaQuery::matches_all_types"):
+                a = an.trace_operand(body, obj.args[0])
+                if a.root[0] == "arg" and not a.proj:
+                    return psa.Pred(("ALL", "self" if a.root[1] == 1 else "other"), []), False
+                return None
+            if t2 in ("Option::is_none", "Option::is_some"):
+                q = _qfield(body, an.trace_operand(body, obj.args[0]))
+                if q and q[1] == "media_type":
+                    return psa.Pred(("TYPE_NONE", q[0]), []), t2 == "Option::is_some"
+                return None
+            if t2 in ("PartialEq::eq", "PartialEq::ne"):
+                x, y = an.trace_operand(body, obj.args[0]), an.trace_operand(body, obj.args[1])
+                qx, qy = _qfield(body, x), _qfield(body, y)
+                if qx and qy and qx[1] == qy[1] == "media_type" and qx[0] != qy[0]:
+                    return psa.Pred(("TYPE_EQ",), []), t2 == "PartialEq::ne"
+                for q, o in ((qx, y), (qy, x)):
+                    if q and q[1] == "modifier" and o.root[0] == "const" and "not" in str(o.root[1]):
+                        return psa.Pred(("NEG", q[0]), []), t2 == "PartialEq::ne"
+                return None
+            if t2 == "Iterator::all":
+                return psa.Pred(("SUBSET", subset_sites.index(obj.bb)), []), False
+            return None
+        if kind == "binop":
+            if obj[0] in ("Ne", "Eq"):
+                x, y = an.trace_operand(body, obj[1]), an.trace_operand(body, obj[2])
+                def is_neg(ap):
+                    if ap.root[0] != "call" or an.tail2(ap.root[1]) != "PartialEq::eq":
+                        return None
+                    c = body.call_at(ap.root[2])
+                    for a, o in ((c.args[0], c.args[1]), (c.args[1], c.args[0])):
+                        q = _qfield(body, an.trace_operand(body, a))
+                        oo = an.trace_operand(body, o)
+                        if q and q[1] == "modifier" and oo.root[0] == "const" and "not" in str(oo.root[1]):
+                            return q[0]
+                    return None
+                nx, ny = is_neg(x), is_neg(y)
+                if nx and ny and nx != ny:
+                    return psa.Pred(("ONE_NEG",), []), obj[0] == "Eq"
+                return None
+            if obj[0] in ("Gt", "Lt"):
+                x, y = an.trace_operand(body, obj[1]), an.trace_operand(body, obj[2])
+                qx, qy = _qfield(body, x), _qfield(body, y)
+                if qx and qy and qx[1] == qy[1] == "conditions" and "len" in repr(x) and "len" in repr(y) and qx[0] != qy[0]:
+                    gt_self = (obj[0] == "Gt") == (qx[0] == "self")
+                    return psa.Pred(("LEN_GT_SELF",), []), not gt_self
+                return None
+        return None
+
+    sites = []
+    for bb, i, pl, rv, st in b.assignments():
+        if pl.local == 0 and not pl.proj and rv["k"] == "agg" and rv.get("adt", "").endswith(RESULT):
+            sites.append((bb, rv.get("variant")))
+    if len(sites) < 5:
+        raise AnchorMissing("MediaQuery::merge: expected at least 5 result sites, found %d" % len(sites))
+    site_vals = []
+    for bb, var in sites:
+        vals, complete = psa.valuations_at(b, bb, classify, max_states=200000)
+        if not complete:
+            r.violate("merge|decision-table|state-budget", "path-sensitive exploration of MediaQuery::merge did not complete: the decision table cannot be extracted", b.loc())
+            return r
+        site_vals.append((bb, var, vals))
+    TYPES = (None, "all", "screen", "print")
+    MODS = (None, "not", "only")
+    n = bad = 0
+    first_bad = []
+    seen_sig = set()
+    for c1 in (True, False):
+        for m1 in MODS:
+            for t1 in TYPES:
+                for c2 in (True, False):
+                    for m2 in MODS:
+                        for t2 in TYPES:
+                            for s0 in (True, False):
+                                for s1 in (True, False):
+                                    for lg in (True, False):
+                                        alpha = {("CONJ", "self"): c1, ("CONJ", "other"): c2, ("TYPE_NONE", "self"): t1 is None, ("TYPE_NONE", "other"): t2 is None,
+                                                 ("NEG", "self"): m1 == "not", ("NEG", "other"): m2 == "not", ("ONE_NEG",): (m1 == "not") != (m2 == "not"),
+                                                 ("TYPE_EQ",): t1 == t2, ("ALL", "self"): t1 in (None, "all"), ("ALL", "other"): t2 in (None, "all"),
+                                                 ("SUBSET", 0): s0, ("SUBSET", 1): s1, ("LEN_GT_SELF",): lg}
+                                        outs = set()
+                                        for bb, var, vals in site_vals:
+                                            for v in vals:
+                                                if all(alpha.get(k, val) == val for k, val in v.items() if k in alpha):
+                                                    outs.add(var)
+                                                    break
+                                        want = _reference((c1, m1, t1), (c2, m2, t2), s0, lg, s1)
+                                        n += 1
+                                        if outs != {want}:
+                                            bad += 1
+                                            sig = (c1, m1, t1, c2, m2, t2, tuple(sorted(outs)))
+                                            if len(first_bad) < 4 and sig not in seen_sig:
+                                                seen_sig.add(sig)
+                                                first_bad.append(("%s %s %s" % ("" if c1 else "[or]", m1 or "", t1 or "(no type)"), "%s %s %s" % ("" if c2 else "[or]", m2 or "", t2 or "(no type)"),
+                                                                  "neg-subset=%s fewer-subset=%s" % (s0, s1), sorted(outs), want))
+    r.floor("abstract query pairs evaluated", n, 4608)
+    if bad == 0:
+        r.ok("merge|decision-table", pairs=n, result_sites=len(sites), subset_tests=len(subset_sites))
+    else:
+        ex = "; ".join("`%s` merged with `%s` (%s): code %s, reference %s" % e for e in first_bad)
+        r.violate("merge|decision-table", "MediaQuery::merge decides %d of %d abstract query pairs differently from the dart-sass reference, e.g. %s" % (bad, n, ex), b.loc())
+    # matches_all_types is `type is none or equals "all" ignoring case`
+    mat = prog.one("ast::media::MediaQuery::matches_all_types")
+    isn = [c for c in mat.calls() if an.tail2(c.callee) == "Option::is_none" and derives_from_field(mat, an.trace_operand(mat, c.args[0]), 1, "media_type")]
+    cl = prog.closures_of(mat)
+    lit_all = False
+    for cb in cl:
+        lower = any("to_ascii_lowercase" in (c.callee or "") or "eq_ignore_ascii_case" in (c.callee or "") for c in cb.calls())
+        for c in cb.calls():
+            for a in c.args:
+                ap = an.trace_operand(cb, a)
+                if ap.root[0] == "const" and str(ap.root[1]).strip("'\"") == "all" and lower:
+                    lit_all = True
+    if isn and lit_all:
+        r.ok("matches_all_types|definition")
+    else:
+        r.violate("matches_all_types|definition", "MediaQuery::matches_all_types is no longer `media_type is none or equals \"all\" ignoring ASCII case` (is_none=%s, compares with lowercase \"all\"=%s)" % (bool(isn), lit_all), mat.loc())
+    return r
+
+
+RULES = [rule_a, rule_b, rule_c]
